@@ -375,7 +375,8 @@ def _replay(ctx: Ctx, rec: dict, wd) -> None:
     ctx.extra["replay_same_trace"] = (ev == tr["ev"])
     for clause in bad.get(0, []):
         ctx.violation(clause, dict(sig, clause=clause), {"trace": {"cap": tr["cap"], "ttl": tr["ttl"], "ev": ev},
-                                                         "schedule": d["schedule"], "scenario": d.get("scenario")})
+                                                         "schedule": d["schedule"], "executed": d.get("executed"),
+                                                         "scenario": d.get("scenario")})
 
 
 def run(ctx: Ctx) -> None:
